@@ -36,7 +36,8 @@ pub fn run(rep: &mut Report, thorough: bool) {
         let regions: Vec<(u64, u64)> = [big, ro, one, rx].iter().map(|&i| (b.spec.regions[i].addr, b.spec.regions[i].len)).collect();
         let (rxa, rxl) = regions[3];
         let hole = regions[0].0 - PAGE; // an unmapped page (right below the big region)
-        let nthreads = *rng.pick(&[0usize, 1, 3, 8]);
+        // every fourth target has more threads than the size-limit logic keeps at full length
+        let nthreads = if ti % 4 == 3 { 26 } else { *rng.pick(&[0usize, 1, 3, 8]) };
         for _ in 0..nthreads {
             let mode = if rng.chance(1, 4) { Mode::Spin } else { Mode::Pause };
             let pages = rng.range(1, 3);
@@ -55,6 +56,12 @@ pub fn run(rep: &mut Report, thorough: bool) {
             let mut o = DumpOpts::new(t.pid, t.pid);
             // sanitization only concerns the stacks: every other region must stay byte-exact
             o.sanitize = rng.chance(1, 3);
+            // a size limit shortens the stacks of the threads beyond the 20th: the (shorter) stack
+            // descriptors must still hold the bytes of the range they name
+            if nthreads > 20 && di % 2 == 0 {
+                o.size_limit = Some(0);
+                rep.count("dumps_with_size_limit_and_many_threads", 1);
+            }
             // application regions
             let napp = *rng.pick(&[0usize, 1, 2, 5, 16]);
             for _ in 0..napp {
@@ -224,4 +231,5 @@ pub fn run(rep: &mut Report, thorough: bool) {
     rep.require("memory_bytes_compared", 10_000);
     rep.require("app_regions_checked", 10);
     rep.require("ip_windows_checked", 5);
+    rep.require("dumps_with_size_limit_and_many_threads", 4);
 }
